@@ -28,8 +28,8 @@ func init() {
 			ruleSignedRem(r, []string{"datatype/labelmap", "datatype/labelarray", "datatype/labelblk", "datatype/common/labels"}, 4)
 		}})
 	register(ruleDef{ID: "R13.31", Prop: "C13", Tier: "quick", Floor: 1,
-		Title: "an element's block is found the same way for negative coordinates (annotation, labelsz; same rule as R18.8): the block of an element or of a related element is not computed with a truncating / or % of its position",
-		Fn:    func(r *Run) { ruleSignedRem(r, []string{"datatype/annotation", "datatype/labelsz"}, 0) }})
+		Title: "an element's block is found the same way for negative coordinates (annotation, labelsz and the dvid point functions they file elements by; same rule as R18.8): the block of an element or of a related element is not computed with a truncating / or % of its position",
+		Fn:    func(r *Run) { ruleSignedRem(r, []string{"datatype/annotation", "datatype/labelsz", "dvid"}, 0) }})
 	register(ruleDef{ID: "R17.4", Prop: "C17", Tier: "quick", Floor: 1,
 		Title: "slice position inside a block is defined below z = 0 (imageblk bulk load; same rule as R18.8)",
 		Fn:    func(r *Run) { ruleSignedRem(r, []string{"datatype/imageblk", "dvid"}, 8) }})
